@@ -463,7 +463,7 @@ int main(int argc, char** argv)
     return 0;
   }
   int seeds[4] = { 0, (int)kSlots - 2, (int)kSlots - 1, (int)kSlots };
-  int depth = thorough ? 5 : 4;
+  int depth = thorough ? 8 : 4;
   uint64_t idx = 0;
   for (int si = 0; si < 4; si++) {
     if (!mine(si)) continue;
